@@ -163,6 +163,12 @@ impl Evaluator {
         (util::multiply_u64_mod(e1, factor1, plain_modulus), e1, e2)
     }
     
+    /// Verification hook: the private `balance_correction_factors` (only with `--features verif`).
+    #[cfg(feature = "verif")]
+    pub fn verif_balance_correction_factors(factor1: u64, factor2: u64, plain_modulus: &Modulus) -> (u64, u64, u64) {
+        Self::balance_correction_factors(factor1, factor2, plain_modulus)
+    }
+
     fn is_scale_within_bounds(scale: f64, context_data: &ContextData) -> bool {
         let scheme = context_data.parms().scheme();
         let scale_bit_count_bound = 
